@@ -198,6 +198,17 @@ def shard(sh: Shard, combos, seed, tier, snapshots):
                     sh.count("facade_builds_failed")
                     continue
                 sh.count("facades_built")
+                if block_kind in ("enum-at-len", "enum-above-len") and kind == "async":
+                    # stored values outside a label list read as 'Unknown'
+                    for t, ref in refs.items():
+                        if ref.kind == "Enum" and ref.inside_block() and ref.raw(block) >= len(ref.labels) and (plat + "-cfg-%d" % c, t) not in bad and (plat + "-log-%d" % l, t) not in bad:
+                            try:
+                                v = spa.accessors[t].value
+                            except Exception as e:
+                                v = e
+                            sh.count("out_of_range_enum_reads")
+                            if v != "Unknown":
+                                sh.violation("C11:unknown-label", f"{plat}: enum item {t} storing {ref.raw(block)} (labels: {len(ref.labels)}) reads {v!r} instead of 'Unknown'", {"combo": combo, "item": t})
                 exercise(sh, facade, kind, combo, block_kind, keyp)
                 sh.see("block_kinds", block_kind)
         sh.nontrivial(f"{plat}-{c}-{l}")
@@ -275,6 +286,7 @@ def main(tier, seed):
     run.need(run.counters.get("facades_built", 0) > 5000, "too few facades built")
     run.need(len(run.distinct) >= 890, "not all 895 combinations driven")
     run.need(run.counters.get("watercare_bytes", 0) >= 512, "watercare bytes not all rendered")
+    run.need(run.counters.get("out_of_range_enum_reads", 0) > 10000, "too few out-of-range enum reads")
     run.extra["combinations"] = len(combos)
     run.extra["distinct_members_evaluated"] = len(run.sets.get("member_names", set()))
     return run.finish(
